@@ -368,12 +368,28 @@ def r08_4(ctx):
                 ok = mentions(flag, lambda x: x[0] == "field" and x[2] == "ignore_case") or (flag[0] == "param") or (flag[0] == "field" and flag[1][0] == "variant" and flag[1][2] == "Empty")
                 r.ob("case-flag:%s->%s" % (f.key, cal.name), ok and flag[0] != "const", f.loc(span_line(t["s"])), "case flag of the new regex is %s" % show(flag, f))
         r.ob("case-flag:sites", n >= 6, "", "%d regex constructions inside the tree" % n)
+        # an item that empties itself (last value removed, nothing retained) hands back an Empty item that
+        # remembers the tree's case flag: the next insertion builds its regex from it
+        m = 0
+        for adt in (NODE, LEAF):
+            for f in F.methods_of(adt, inherent_only=True):
+                if f.is_closure:
+                    continue
+                for p in Sym(f, copies=True).paths():
+                    if p.end[0] != "ret":
+                        continue
+                    for x in walk(p.end[1]):
+                        if x[0] == "agg" and x[1] == ITEM and x[2] == "Empty":
+                            m += 1
+                            flag = x[3][0][1]
+                            r.ob("case-flag:%s:emptied-item" % f.key, flag[0] != "const" and mentions(flag, lambda y: y[0] == "field" and y[2] == "ignore_case"), f.site, "the Empty item returned carries %s" % show(flag, f))
+        r.ob("case-flag:emptied-sites", m >= 3, "", "%d Empty items returned by Node / Leaf" % m)
         # RegexTreeMap::new / UniqueRegexTreeMap::new keep the flag
         f = F.method(TREE, "new")
         rets = [p.end[1] for p in Sym(f).paths() if p.end[0] == "ret"]
         okn = len(rets) == 1 and mentions(rets[0], lambda x: x[0] == "agg" and x[2] == "Empty" and x[3][0][1] == ("param", 1))
         r.ob("case-flag:tree-new", okn, f.site, "an empty tree remembers the case flag it was created with")
-    ctx.run_rule("R08.4", "case-flag provenance of every regex built inside the tree", body, floor=7)
+    ctx.run_rule("R08.4", "case-flag provenance of every regex built inside the tree", body, floor=11)
 
 
 def r08_6(ctx):
